@@ -48,6 +48,18 @@ def info_part(run, obs_w_sample, obs_b_sample):
             continue
         tool = "bigwiginfo" if o["kind"] == "bw" else "bigbedinfo"
         rc, out, err = cf.run_tool(tdir, "own", tool, [o["dump"]])
+        k_ = len(keep)
+        # option paths: --minmax (bigWig: prints only "min max"), --chroms (one line per chromosome) with --zooms
+        mm = None
+        if o["kind"] == "bw":
+            rcm, outm, _ = cf.run_tool(tdir, "own", tool, [o["dump"], "--minmax"])
+            try:
+                a_, b_ = outm.split()
+                mm = (rcm, int(round(float(a_) * 1000000)), int(round(float(b_) * 1000000)))
+            except Exception:
+                mm = (1, 0, 0)
+        rcc, outc, _ = cf.run_tool(tdir, "own", tool, [o["dump"], "--chroms", "--zooms"])
+        chromlines = sum(1 for ln in outc.splitlines() if ln.startswith("\tchr")) if rcc == 0 else -1
         os.remove(o["dump"])
         f = {}
         for line in out.splitlines():
@@ -66,6 +78,8 @@ def info_part(run, obs_w_sample, obs_b_sample):
             ob = {"rc": rc, "bases": 0, "min_u": 0, "max_u": 0, "mean_u": 0, "items": 0}
         ob["parsed"] = parsed
         ob["raw"] = out[:400]
+        ob["mm"], ob["mm_min_u"], ob["mm_max_u"] = (1, mm[1], mm[2]) if mm and mm[0] == 0 else ((2, 0, 0) if mm else (0, 0, 0))
+        ob["chromlines"] = chromlines
         rec = {"kind": o["kind"], "items": o["items"], "scale": o["scale"], "zl": 1 if any(it[1] == it[2] for it in o["items"]) else 0, "obs": ob}
         keep.append(rec)
         lines.append(json.dumps(rec, separators=(",", ":")))
